@@ -57,7 +57,17 @@ func TestVerifStoreSeq(t *testing.T) {
 	})
 }
 
-func vsGenSquare(s *verifsim.Sim, rng *mrand.Rand, allowBig bool) *verifsq.Square {
+// vsWide is one square of the largest ODS width a file-backed row read has to cope with (128: the
+// extended width 256 is where 16-bit size arithmetic overflows); built once per process.
+var vsWide *verifsq.Square
+
+func vsGenSquare(s *verifsim.Sim, rng *mrand.Rand, allowBig, allowWide bool) *verifsq.Square {
+	if allowWide && s.Chance(1, 120, "wide_square") {
+		if vsWide == nil {
+			vsWide = verifsq.Gen(rng, 128, -1)
+		}
+		return vsWide
+	}
 	ws := []int{1, 2, 2, 4, 4, 8}
 	if allowBig {
 		ws = append(ws, 16)
@@ -82,6 +92,9 @@ func vsCheckOpts(rng *mrand.Rand, w int) *verifsq.CheckOpts {
 	if w > 8 {
 		o.MaxSamples, o.MaxRanges = 12, 5
 	}
+	if w > 16 {
+		o.MaxSamples, o.MaxRanges, o.MaxAxes = 10, 4, 6
+	}
 	return o
 }
 
@@ -104,7 +117,7 @@ func vsReadWorld(s *verifsim.Sim, dir string) {
 	var blocks []*blk
 	var widths []int
 	for i := 0; i < nblocks; i++ {
-		b := &blk{h: uint64(100 + i*256), sq: vsGenSquare(s, rng, true)} // heights collide on cache slots
+		b := &blk{h: uint64(100 + i*256), sq: vsGenSquare(s, rng, true, true)} // heights collide on cache slots
 		blocks = append(blocks, b)
 		widths = append(widths, b.sq.ODSW)
 	}
@@ -322,7 +335,7 @@ func vsCrashWorld(s *verifsim.Sim, dir string) {
 	if err != nil {
 		panic(err)
 	}
-	sq := vsGenSquare(s, rng, true)
+	sq := vsGenSquare(s, rng, true, false)
 	h := uint64(7)
 	s.Cfg["ods_width"], s.Cfg["filled"], s.Cfg["recent_cache"] = sq.ODSW, sq.Filled, recent
 	var hist []string
